@@ -110,7 +110,7 @@ type G struct {
 var words = []string{"a", "b", "x", "y", "foo", "bar", "shape", "label", "style", "fill", "opacity", "near", "vars", "d2-config",
 	"layers", "scenarios", "steps", "classes", "class", "width", "grid-rows", "null", "true", "false", "NULL", "True", "suspend",
 	"unsuspend", "falſe", "ſuspend", "1", "23", "4.5", "1e3", "0x1F", "1/2", "-3", "_", "a b", "a-b", "a--b", "-", "q*", "*", "**", "*a*",
-	"é", "日本", "😀", "a😀b", " x", "x y", "ǅ", "İ", "ß", "𝔘", "\u0085", "٣", "a\tb", "@x", "x@y", "d2", "x.d2", "$", "a$b", "!", "&x", "(", ")", "a)b"}
+	"é", "日本", "😀", "a😀b", " x", "x y", "ǅ", "İ", "ß", "𝔘", "𠀀", "𠀀x", "\U0010ffff", "\uffff", "\U00010000", "\u0085", "٣", "a\tb", "@x", "x@y", "d2", "x.d2", "$", "a$b", "!", "&x", "(", ")", "a)b"}
 
 var specials = []string{"#", ";", "\n", "\\", "{", "}", "[", "]", "'", "\"", "|", ":", ".", "-", "<", ">", "*", "&", "(", ")", "@", "$", "${", "...", "->", "<-", "--", "<->", "\\\n", "\"\"\"", "||", "|`", "`|", " ", "\t", "\r", "\x00", "!&", "_", "?"}
 
